@@ -31,7 +31,18 @@ class Node(param.Parameterized):
     b = param.ClassSelector(class_=param.Parameterized, default=None)
 
 
+_TOPS = {}
+
+
 def _mk_top(deps, sub=False, deps2=None):
+    # the classes carry no per-path state (all operations are instance-level): built once per process
+    key = (deps, sub, deps2)
+    if key not in _TOPS:
+        _TOPS[key] = _mk_top_(deps, sub, deps2)
+    return _TOPS[key]
+
+
+def _mk_top_(deps, sub=False, deps2=None):
     class Top(param.Parameterized):
         a = param.ClassSelector(class_=Node, default=None)
         c = param.ClassSelector(class_=Node, default=None)
@@ -69,14 +80,14 @@ def prog(variant: int, k: int, nm: int, inh: bool, o1: int, i1: int, v1: int, o2
     with untraced():
         Top = _mk_top(deps, inh, deps2)
         # explicit, identical names: with 'a.param' the auto-generated names would make every replacement a change
-        mids = [Node(name='cfg'), Node(name='cfg'), Node(name='cfg')]
-        leaves = [Node(name='leaf'), Node(name='leaf')]
+        mids = [Node(name='cfg'), Node(name='cfg', x=1, y=1), Node(name='cfg')]     # the second of each pool starts with other values
+        leaves = [Node(name='leaf'), Node(name='leaf', x=1, y=1)]
         t = Top(a=mids[0])
     cur = 0                       # index of the mid attached at t.a, or None
     curc = None                   # index of the mid attached at the second root t.c, or None
     sub = [None, None, None]      # index of the leaf attached at mids[i].b
-    mv = [[0, 0], [0, 0], [0, 0]]
-    lv = [[0, 0], [0, 0]]
+    mv = [[0, 0], [1, 1], [0, 0]]
+    lv = [[0, 0], [1, 1]]
 
     def reach(deps=deps):
         """per dependency: (resolves?, value)"""
@@ -228,22 +239,34 @@ def shards(tier):
                 continue       # the second root is only watched in variant 4
             if q and variant in (0, 1, 4) and o1 in (4, 5):
                 continue       # quick: depth-2 operations first only for the variants that have a depth-2 dependency
-            if q and variant == 6 and o1 in (1, 2, 3):
+            if q and variant == 6 and o1 not in (0, 4, 5):
+                continue
+            if q and variant == 3 and o1 not in (0, 2):
+                continue
+            if q and variant == 2 and o1 not in (0, 2, 4, 5):
+                continue
+            if q and variant == 1 and o1 not in (0, 2, 3):
+                continue
+            if q and variant == 0 and o1 not in (0, 1, 2):
+                continue
+            if q and variant == 4 and o1 not in (0, 6):
+                continue
+            if q and variant == 5 and o1 not in (0, 4):
                 continue
             for o2 in range(nops):
                 if variant == 6 and o2 == 6:
                     continue
                 c = dict(variant=variant, k=k, o1=o1, o2=o2, nm=2 if q else 3, inh=(variant in (2, 5)))
                 if variant == 6:
-                    c.update(k=4, nm=2)
+                    c.update(nm=2)
                 if k < 4:
                     c.update(o4=0, i4=0, v4=0)
                 out.append(dict(name='v%d_o%d%d' % (variant, o1, o2), module='harness.c07', fn='prog', consts=dict(c, bs=-1),
-                                budget_s=60 if q else 600))
-                if o1 in (0, 4) and variant in ((2, 6) if q else (0, 2, 4, 5, 6)):
+                                budget_s=40 if q else 600))
+                if (o1 in (0, 4) if not q else ((variant, o1) in ((2, 0), (2, 4), (6, 0)))) and variant in ((2, 6) if q else (0, 2, 4, 5, 6)):
                     # the same programs with the dependent method raising at a symbolic step
                     out.append(dict(name='boom_v%d_o%d%d' % (variant, o1, o2), module='harness.c07', fn='prog', consts=dict(c),
-                                    budget_s=60 if q else 600))
+                                    budget_s=40 if q else 600))
     return out
 
 
